@@ -590,6 +590,15 @@ def check(ctx):
                 if isinstance(x, ast.Attribute) and x.attr == pslot and isinstance(x.value, ast.Name) and x.value.id == f.self_name:
                     par = getattr(x, "_parent", None)
                     okk = isinstance(par, ast.Call) and x in par.args and not isinstance(par.func, ast.Subscript)
+                    if not okk and isinstance(par, ast.Assign) and par.value is x and len(par.targets) == 1 and isinstance(par.targets[0], ast.Name):
+                        # a plain local copy (the parameter of an inlined helper): every read of the copy is handed on whole
+                        nm_ = par.targets[0].id
+                        reads = [y for y in ast.walk(f.node) if isinstance(y, ast.Name) and y.id == nm_ and isinstance(y.ctx, ast.Load)]
+                        stores_ = [y for y in ast.walk(f.node) if isinstance(y, ast.Name) and y.id == nm_ and isinstance(y.ctx, ast.Store)]
+                        if reads and len(stores_) == 1 and all(isinstance(getattr(y, "_parent", None), ast.Call) and y in y._parent.args
+                                                               and not isinstance(y._parent.func, ast.Subscript) for y in reads):
+                            okk = True
+                            par = reads[0]._parent
                     ctx.ob("verbatim.provider-uses-whole-key", f, par if par is not None else x, okk,
                            "the whole key is handed to %s" % (ast.unparse(par.func) if okk else "?") if okk else
                            "%s uses %s: the key is sliced or transformed before use" % (f.qualname, ast.unparse(par)[:50] if par is not None else "?"), node=x)
